@@ -69,24 +69,64 @@ func c02LinkedIntoAllStore(p *Prog, r *Report, rule string) {
 	}
 	ok := len(allPush) > 0
 	bad := "no PushBack on the all-store"
-	for _, e := range f.Exits() {
-		if f.isNoReturnExit(f.Nodes[e]) {
-			continue
+	// after a push into the transaction's list neither an exit nor the next push is reached without the push into
+	// the all-store (the function may store several versions in a loop, or none)
+	allSet := setOf(allPush)
+	for _, t := range txPush {
+		var start []int
+		for _, sid := range f.succsOf(t) {
+			if !allSet[sid] {
+				start = append(start, sid)
+			}
 		}
-		if ok && !f.MustPrecede(setOf(allPush), e) {
-			ok, bad = false, "an exit is reached without the push into the all-store"
+		reach := f.Reach(start, func(n *GNode) bool { return allSet[n.ID] }, nil)
+		if ok && reach[t] {
+			ok, bad = false, "the next version is pushed before the link of this one"
+		}
+		for _, e := range f.Exits() {
+			if ok && reach[e] && !f.isNoReturnExit(f.Nodes[e]) && !allSet[e] {
+				// (the all-store push may precede the transaction push)
+				if !f.MustPrecede(allSet, t) {
+					ok, bad = false, "an exit is reached without the push into the all-store"
+				}
+			}
 		}
 	}
 	// what is pushed is the link of the node pushed into the transaction: the argument of SetLink
 	if ok {
 		linked := false
+		// (the pushed variable and the SetLink argument may be different names of one node: results of a helper that
+		// builds the pair, parameters of a helper that pushes it)
+		same := map[string]bool{}
+		for _, la := range linkArgs {
+			if o := objOf(info, la); o != nil {
+				same[objID(o)] = true
+			}
+		}
+		for changed := true; changed; {
+			changed = false
+			for _, n := range f.Nodes {
+				as, isAs := n.Ast.(*ast.AssignStmt)
+				if !isAs || len(as.Lhs) != len(as.Rhs) {
+					continue
+				}
+				for i := range as.Lhs {
+					lo, ro := objOf(info, as.Lhs[i]), objOf(info, as.Rhs[i])
+					if lo == nil || ro == nil {
+						continue
+					}
+					if same[objID(lo)] != same[objID(ro)] {
+						same[objID(lo)], same[objID(ro)] = true, true
+						changed = true
+					}
+				}
+			}
+		}
 		visit := func(x ast.Node) bool {
 			if c, isCall := x.(*ast.CallExpr); isCall {
 				if sel, isSel := ast.Unparen(c.Fun).(*ast.SelectorExpr); isSel && sel.Sel.Name == "SetLink" && len(c.Args) == 1 {
-					for _, la := range linkArgs {
-						if o := objOf(info, la); o != nil && objOf(info, c.Args[0]) == o {
-							linked = true
-						}
+					if o := objOf(info, c.Args[0]); o != nil && same[objID(o)] {
+						linked = true
 					}
 				}
 			}
